@@ -17,8 +17,17 @@ def main():
     res = common.Result()
     try:
         mod.run_shard(tier, int(seed), int(shard), int(nshards), res)
-    except BaseException:  # the harness itself failed: never "held"
-        res.inconclusive.append('harness error in shard %s: %s' % (shard, traceback.format_exc()[-1800:]))
+    except BaseException as exc:  # never "held"
+        tb = traceback.extract_tb(exc.__traceback__)
+        inner = tb[-1].filename if tb else ''
+        in_library = any(f.filename.startswith(common.REPO + '/') for f in tb[-6:])
+        if in_library and not isinstance(exc, (KeyboardInterrupt, MemoryError)):
+            # an API call of the tree under test raised something no oracle of this check expects; on the unchanged
+            # tree this never happens (sweeps), so it is reported as a violation with the traceback as witness
+            res.violation('unexpected %s raised by the library: %s' % (type(exc).__name__, exc),
+                          {'shard': shard, 'traceback': traceback.format_exc()[-1500:], 'innermost': inner})
+        else:
+            res.inconclusive.append('harness error in shard %s: %s' % (shard, traceback.format_exc()[-1800:]))
     with open(out + '.tmp', 'w') as f:
         json.dump(res.to_json(), f, default=repr)
     import os
